@@ -1,5 +1,6 @@
 import MW.Inv.NoPanic
 import MW.Treasury.Model
+import MW.Staking.Interface
 /-!
 # C16 — Entry points never panic, overflow or divide by zero
 
@@ -565,5 +566,23 @@ theorem treasury_admin_always_set (env : Env) (info : Info) (msg : MW.Treasury.T
 
 /-- non-vacuity: the envelope admits, e.g., a 10^27 stake at a 2:1 rate with 10^30 totals -/
 example : (10 : Nat) ^ 30 ≤ 1000 * (5 * 10 ^ 29) ∧ 5 * 10 ^ 29 ≤ 1000 * 10 ^ 30 ∧ TOT + AMT ≤ U128.max := by decide
+
+/-- **"each entry point of both contracts", "every message"**: the entry points and every message enum / struct of
+both contracts as the source declares them (tables regenerated from /repo on every run) are exactly the ones the
+panic-freedom theorems above are stated for -/
+theorem entry_points_and_messages_are_the_modelled_ones :
+    MW.Generated.Interface.staking_entry_points = MW.Interface.model_staking_entry_points
+    ∧ MW.Generated.Interface.treasury_entry_points = MW.Interface.model_treasury_entry_points
+    ∧ MW.Generated.Interface.staking_execute = MW.Interface.model_staking_execute
+    ∧ MW.Generated.Interface.staking_query = MW.Interface.model_staking_query
+    ∧ (MW.Generated.Interface.staking_sudo = MW.Interface.model_staking_sudo
+        ∧ MW.Generated.Interface.staking_lifecycle = MW.Interface.model_staking_lifecycle)
+    ∧ MW.Generated.Interface.staking_migrate = MW.Interface.model_staking_migrate
+    ∧ MW.Generated.Interface.staking_instantiate = MW.Interface.model_staking_instantiate
+    ∧ MW.Generated.Interface.treasury_execute = MW.Interface.model_treasury_execute
+    ∧ MW.Generated.Interface.treasury_query = MW.Interface.model_treasury_query :=
+  ⟨MW.Interface.staking_entry_points_eq, MW.Interface.treasury_entry_points_eq, MW.Interface.staking_execute_eq,
+   MW.Interface.staking_query_eq, MW.Interface.staking_sudo_eq, MW.Interface.staking_migrate_eq,
+   MW.Interface.staking_instantiate_eq.1, MW.Interface.treasury_execute_eq, MW.Interface.treasury_rest_eq.1⟩
 
 end MW.Props.C16
